@@ -98,6 +98,7 @@ def gen_program(rng, size: int = 10, with_args: bool = True, control_flow: bool 
             "range", "const_of_shape", "size", "identity", "unsqueeze", "if", "binary_arg", "concat_from_seq",
             "arg_default", "arg_default", "seq_pair", "opt_pair",
             "inline0", "inline0", "intdiv", "intdiv", "intdiv_shape", "intdiv_shape",
+            "intros", "intros", "unsafe", "inline_const", "inline_const",
         ])
         if choice == "const":
             new_const()
@@ -313,6 +314,36 @@ def gen_program(rng, size: int = 10, with_args: bool = True, control_flow: bool 
                 j = pick(lambda v: is_num(v) and v.shape == [3] and v.dt == "i64")
                 emit({"op": "inline", "args": [i, j]}, _V("tensor", "i64", [3], vs[i].const and vs[j].const),
                      _V("tensor", "i64", [3], vs[i].const and vs[j].const))
+        elif choice == "intros":
+            # spox._internal_op.intros / intro: aliases with a shared dependency. A non-constant Var standing
+            # *before* constants of the same dtype / shape (a slot shift would hand it a "constant").
+            i = pick(is_t)
+            if i is not None:
+                v = vs[i]
+                same = lambda w: is_t(w) and w.dt == v.dt and w.shape == v.shape  # noqa: E731
+                group = [i]
+                if v.dt in NUM + ["bool", "str"]:
+                    group += [new_const(v.dt, v.shape, "value") for _ in range(rng.randrange(1, 3))]
+                if with_args and v.dt in NUM and rng.random() < 0.7:
+                    group.insert(rng.randrange(0, len(group)), new_arg(v.dt, v.shape))
+                j = pick(same)
+                if j is not None and rng.random() < 0.5:
+                    group.insert(rng.randrange(0, len(group) + 1), j)
+                emit({"op": "intros" if rng.random() < 0.7 else "intro", "args": group},
+                     *([_V(vs[g].kind, vs[g].dt, vs[g].shape, vs[g].const, vs[g].elem) for g in group]))
+                if steps[-1]["op"] == "intro":  # only the last alias is returned
+                    del vs[len(vs) - len(group):len(vs) - 1]
+        elif choice == "unsafe":
+            # unsafe_reshape / unsafe_cast to a type the value really has (they copy the propagated value)
+            i = pick(lambda v: is_t(v) and v.dt in NUM and control_flow)
+            if i is not None:
+                v = vs[i]
+                shp = [d if rng.random() < 0.6 else None for d in v.shape]
+                emit({"op": rng.choice(["unsafe_reshape", "unsafe_cast"]), "args": [i], "dt": v.dt, "shape": shp},
+                     _V("tensor", v.dt, v.shape, v.const))
+        elif choice == "inline_const":
+            # a model WITHOUT graph inputs (constants only), inlined with no arguments
+            emit({"op": "inline_const", "data": [rng.randrange(-4, 9) for _ in range(3)]}, _V("tensor", "i64", [3], True))
         elif choice == "inline0":
             # a node-less pass-through model (its outputs are its inputs) inlined on a constant / any tensor
             i = pick(lambda v: is_t(v) and v.dt in NUM + ["bool"] and (v.const or rng.random() < 0.3))
@@ -393,6 +424,20 @@ def _inline_model():
 
 
 _PASSTHROUGH: dict = {}
+_CONSTMODEL: dict = {}
+
+
+def _constant_model(data: tuple):
+    """A model without graph inputs: y = Constant(data) * 2 (int64)."""
+    import onnx
+    import onnx.helper as oh
+
+    if data not in _CONSTMODEL:
+        c = oh.make_node("Constant", [], ["c"], value=oh.make_tensor("c", onnx.TensorProto.INT64, [len(data)], list(data)))
+        m = oh.make_node("Add", ["c", "c"], ["y"])
+        g = oh.make_graph([c, m], "constmodel", [], [oh.make_tensor_value_info("y", onnx.TensorProto.INT64, [len(data)])])
+        _CONSTMODEL[data] = oh.make_model(g, opset_imports=[oh.make_operatorsetid("", 17)])
+    return _CONSTMODEL[data]
 
 
 def _passthrough_model(dt: str, shape: tuple):
@@ -447,6 +492,48 @@ def apply_step(step: dict, vars_: list) -> list:
         return [getattr(op, o)(a[0])]
     if o == "mod":
         return [op.mod(a[0], a[1], fmod=step["fmod"])]
+    if o == "compress":
+        return [op.compress(a[0], a[1], axis=step["axis"])]
+    if o == "one_hot":
+        return [op.one_hot(a[0], a[1], a[2], axis=step["axis"])]
+    if o == "pad":
+        return [op.pad(a[0], a[1])]
+    if o == "squeeze":
+        return [op.squeeze(a[0], a[1] if len(a) > 1 else None)]
+    if o == "split_sizes":
+        return list(op.split(a[0], a[1], outputs_count=2, axis=step["axis"]))
+    if o == "non_zero":
+        return [op.non_zero(a[0])]
+    if o == "cumsum":
+        return [op.cumsum(a[0], a[1])]
+    if o == "slice_n":
+        return [op.slice(*a)]
+    if o == "reduce_sum_k":
+        return [op.reduce_sum(a[0], a[1], keepdims=step["keepdims"])]
+    if o == "gather_ax":
+        return [op.gather(a[0], a[1], axis=step["axis"])]
+    if o == "resize":
+        if step["by"] == "sizes":
+            return [op.resize(a[0], None, None, a[1], mode="nearest")]
+        return [op.resize(a[0], None, a[1], None, mode="nearest")]
+    if o == "intros":
+        from spox._internal_op import intros
+
+        return list(intros(*a))
+    if o == "intro":
+        from spox._internal_op import intro
+
+        return [intro(*a)]
+    if o == "unsafe_reshape":
+        from spox._internal_op import unsafe_reshape
+
+        return [unsafe_reshape(a[0], tuple(step["shape"]))]
+    if o == "unsafe_cast":
+        from spox._internal_op import unsafe_cast
+
+        return [unsafe_cast(a[0], Tensor(_NP[step["dt"]], tuple(step["shape"])))]
+    if o == "inline_const":
+        return list(inline(_constant_model(tuple(step["data"])))().values())
     if o == "inline0":
         return list(inline(_passthrough_model(step["dt"], tuple(step["shape"])))(x=a[0]).values())
     if o in ("add", "sub", "mul", "div", "equal", "less", "reshape", "expand", "tile", "sequence_at"):
@@ -464,11 +551,11 @@ def apply_step(step: dict, vars_: list) -> list:
     if o == "unsqueeze":
         return [op.unsqueeze(a[0], a[1])]
     if o == "topk":
-        return list(op.top_k(a[0], a[1]))
+        return list(op.top_k(a[0], a[1], axis=step.get("axis", -1)))
     if o == "split":
         return list(op.split(a[0], outputs_count=2))
     if o == "unique":
-        return list(op.unique(a[0]))
+        return list(op.unique(a[0], sorted=1))
     if o == "sequence_construct":
         return [op.sequence_construct([a[0], a[1]])]
     if o == "where":
@@ -670,7 +757,7 @@ def c07_check_program(steps: list, sel: str, seed: int) -> dict:
             opn = steps[r["step_of_var"][i]]["op"]
             if L.has_value(v):
                 stats["compared"] += 1
-                if opn in ("topk", "split", "unique", "inline", "inline0"):
+                if opn in ("topk", "split", "unique", "inline", "inline0", "intros"):
                     stats["multi"] += 1
                 why = values_equal(v._get_value(), o)
                 if why:
@@ -679,7 +766,14 @@ def c07_check_program(steps: list, sel: str, seed: int) -> dict:
                     # onnx.reference, run on the same built model, does not side with the propagated value.
                     alt = second_opinion(pos)
                     if alt is not None and values_equal(v._get_value(), alt) is None:
+                        # the two third-party evaluators disagree on the built model and the propagated value
+                        # sides with onnx.reference: a separate failure family (listed per operator in
+                        # findings.d when it is a known third-party defect), never a silent pass
+                        kind = "str" if np.asarray(o).dtype.kind in "UO" else np.asarray(o).dtype.kind
                         stats["evaluators_disagree"] = stats.get("evaluators_disagree", 0) + 1
+                        fails.append((f"evaluators-disagree:{opn}:{kind}",
+                                      f"[{sel}] var {i} ({opn}): propagated {str(v._get_value())[:60]} = onnx.reference on the built model, "
+                                      f"but onnxruntime computes {str(o)[:60]}"))
                         why = None
                 if why:
                     which = v._which_output
@@ -859,8 +953,8 @@ def _const_array(step):
 def record_history(steps: list, sel: str, script=None, at: str = "run") -> dict:
     """Run the program and describe it as a model history (`VP.Step` list) together with the values
     the real code attached. Programs with control flow are not described (returns {"skip": ...})."""
-    if any(st["op"] == "if" for st in steps):
-        return {"skip": "control flow"}
+    if any(st["op"] in ("if", "unsafe_reshape", "unsafe_cast") for st in steps):
+        return {"skip": "control flow / unsafe_* (outside the history model)"}
     reg = L.PidRegistry()
     nonconf: list = []
     vars_: list = []
@@ -928,3 +1022,163 @@ def record_history(steps: list, sel: str, script=None, at: str = "run") -> dict:
                                             f"[{sel}] {st['op']}->{key}: attached value does not conform to {v.type}: {why}"))
                 vars_.extend(new)
     return {"steps": hist, "real": real_vals, "failures": nonconf}
+
+
+# ------------------------------------------------ derived types: operators whose inference reads constants
+
+DERIVED_TEMPLATES = ["compress", "one_hot", "topk", "range", "constant_of_shape", "pad", "squeeze", "unsqueeze",
+                     "split_sizes", "shape_gather", "non_zero_shape", "unique_size", "cumsum", "slice", "tile",
+                     "expand", "reshape", "reduce", "gather", "resize"]
+
+
+def gen_derived_program(rng, template: Optional[str] = None) -> list:
+    """A small program around ONE operator whose type inference (ONNX data propagation or a spox
+    override) reads a constant operand, with boundary constants (too long, negative, zero, INT64_MAX),
+    on constant *and* on argument data."""
+    steps: list = []
+    count = [0]
+
+    def emit(step, nout=1):
+        steps.append(step)
+        count[0] += nout
+        return count[0] - nout
+
+    def C(dt, shape, data, how=None):
+        st = {"op": "const", "how": how or rng.choice(["value", "value", "init"]), "dt": dt, "shape": list(shape), "data": list(data)}
+        if dt in NUM and rng.random() < 0.25:
+            st["endian"] = ">"
+        if dt in ("bool", "str"):
+            st["how"] = "value" if dt == "str" else st["how"]
+        return emit(st)
+
+    def X(dt, shape):
+        """The data operand: a constant or a model input."""
+        if rng.random() < 0.5:
+            return emit({"op": "arg", "dt": dt, "shape": list(shape)})
+        return C(dt, shape, _data(rng, dt, shape))
+
+    t = template or rng.choice(DERIVED_TEMPLATES)
+    n, m = rng.choice([2, 3, 4]), rng.choice([2, 3])
+    fdt = rng.choice(["f32", "i64"])
+    if t == "compress":
+        shape = rng.choice([[n], [n, m]])
+        axis = rng.choice([None, 0, -1])
+        alen = int(np.prod(shape)) if axis is None else shape[axis]
+        L_ = max(1, alen + rng.choice([-1, 0, 0, 2, 3]))
+        cond = [bool(rng.randrange(2)) for _ in range(L_)]
+        if L_ > alen:
+            cond[-1] = True  # a True past the end of the axis
+        x = X(fdt, shape)
+        c = C("bool", [L_], cond)
+        emit({"op": "compress", "args": [x, c], "axis": axis})
+    elif t == "one_hot":
+        depth = rng.choice([1, 3, 5])
+        idx = X("i64", rng.choice([[n], [n, m]]))
+        ddt = rng.choice(["i64", "f32", "i32"])
+        d = C(ddt, rng.choice([[], [1]]), [depth])
+        v = C("f32", [2], [0.0, 1.0])
+        emit({"op": "one_hot", "args": [idx, d, v], "axis": rng.choice([-1, 0])})
+    elif t == "topk":
+        x = X("f32", [n, m])
+        axis = rng.choice([-1, 0])
+        k = rng.choice([0, 1, [n, m][axis]])
+        emit({"op": "topk", "args": [x, C("i64", [1], [k])], "axis": axis}, 2)
+    elif t == "range":
+        dt = rng.choice(["i64", "f32", "i32"])
+        s_, l_, d_ = rng.choice([(0, 5, 1), (5, 0, -1), (5, 0, -2), (3, 3, 1), (0, 5, 2), (4, 1, 1), (-2, 3, 2), (1, -6, -3)])
+        emit({"op": "range", "args": [C(dt, [], [s_]), C(dt, [], [l_]), C(dt, [], [d_])]})
+    elif t == "constant_of_shape":
+        shp = rng.choice([[0], [2, 0], [3], [1, 1, 2], []])
+        emit({"op": "constant_of_shape", "args": [C("i64", [len(shp)], shp)], "fill": 3})
+    elif t == "pad":
+        shape = rng.choice([[n], [n, m]])
+        r = len(shape)
+        pads = [rng.choice([-1, 0, 0, 1, 2]) for _ in range(2 * r)]
+        for ax in range(r):
+            while shape[ax] + pads[ax] + pads[ax + r] < 0:
+                pads[ax] += 1
+        x = X("f32", shape)
+        emit({"op": "pad", "args": [x, C("i64", [2 * r], pads)]})
+    elif t == "squeeze":
+        x = X(fdt, [1, n, 1])
+        axes = rng.choice([[0], [-1], [0, 2], [0, -1], [2], None])
+        if axes is None:
+            emit({"op": "squeeze", "args": [x]})
+        else:
+            emit({"op": "squeeze", "args": [x, C("i64", [len(axes)], axes)]})
+    elif t == "unsqueeze":
+        x = X(fdt, [n, m])
+        axes = rng.choice([[0], [-1], [0, 2], [-1, -3], [3, 0], [1]])
+        emit({"op": "unsqueeze", "args": [x, C("i64", [len(axes)], axes)]})
+    elif t == "split_sizes":
+        shape = rng.choice([[n], [n, m]])
+        axis = rng.choice([0, -1])
+        k = rng.randrange(0, shape[axis] + 1)
+        x = X(fdt, shape)
+        emit({"op": "split_sizes", "args": [x, C("i64", [2], [k, shape[axis] - k])], "axis": axis}, 2)
+    elif t == "shape_gather":
+        x = X(fdt, [n, m])
+        s = emit({"op": "shape", "args": [x]})
+        idx = rng.choice([[-1], [0], [1, 0], [-2]])
+        g = emit({"op": "gather", "args": [s, C("i64", [len(idx)], idx)]})
+        if len(idx) == 1 and rng.random() < 0.5:
+            emit({"op": "tile", "args": [C("f32", [2], [0.5, 1.5]), g]})
+        else:
+            emit({"op": "constant_of_shape", "args": [g], "fill": 2})
+    elif t == "non_zero_shape":
+        data = [rng.choice([0, 0, 1, 2]) for _ in range(n + 1)]
+        c = C("i64", [n + 1], data) if rng.random() < 0.7 else emit({"op": "arg", "dt": "i64", "shape": [n + 1]})
+        nz = emit({"op": "non_zero", "args": [c]})
+        s = emit({"op": "shape", "args": [nz]})
+        emit({"op": "constant_of_shape", "args": [s], "fill": 1})
+    elif t == "unique_size":
+        data = [rng.choice([1, 2, 2, 5]) for _ in range(n + 1)]
+        c = C("i64", [n + 1], data)
+        u = emit({"op": "unique", "args": [c]}, 4)
+        sz = emit({"op": "size", "args": [u]})
+        emit({"op": "range", "args": [C("i64", [], [0]), sz, C("i64", [], [1])]})
+    elif t == "cumsum":
+        x = X("f32", [n, m])
+        emit({"op": "cumsum", "args": [x, C(rng.choice(["i64", "i32"]), rng.choice([[], [1]]), [rng.choice([0, -1, 1, -2])])]})
+    elif t == "slice":
+        x = X(fdt, [n, m])
+        big = 2**63 - 1
+        st_, en_, ax_, sp_ = rng.choice([([0], [big], [0], [1]), ([-1], [-big], [0], [-1]), ([1], [100], [-1], [1]),
+                                         ([-2], [big], [1], [1]), ([0, 0], [1, big], [0, 1], [1, 2]), ([5], [7], [0], [1]),
+                                         ([-100], [1], [-2], [1]), ([n - 1], [0], [0], [-2])])
+        args = [x, C("i64", [len(st_)], st_), C("i64", [len(en_)], en_)]
+        if rng.random() < 0.8:
+            args.append(C("i64", [len(ax_)], ax_))
+            if rng.random() < 0.7:
+                args.append(C("i64", [len(sp_)], sp_))
+        elif len(st_) == 1 and ax_ != [0]:
+            args.append(C("i64", [len(ax_)], ax_))
+        emit({"op": "slice_n", "args": args})
+    elif t == "tile":
+        x = X(fdt, [n, m])
+        emit({"op": "tile", "args": [x, C("i64", [2], [rng.choice([0, 1, 2]), rng.choice([0, 1, 3])])]})
+    elif t == "expand":
+        x = X(fdt, [n, 1])
+        tgt = rng.choice([[1, m], [n, m], [2, n, 1], [m], [1], [1, 1, 1]])
+        emit({"op": "expand", "args": [x, C("i64", [len(tgt)], tgt)]})
+    elif t == "reshape":
+        x = X(fdt, [n, m])
+        tgt = rng.choice([[0, -1], [-1], [n * m], [0, m], [1, 0, -1], [-1, 1], [m, n], [1, n * m, 1]])
+        emit({"op": "reshape", "args": [x, C("i64", [len(tgt)], tgt)]})
+    elif t == "reduce":
+        x = X("f32", [n, m])
+        axes = rng.choice([[-1], [0, 1], [0], [-2], [1, -2]])
+        emit({"op": "reduce_sum_k", "args": [x, C("i64", [len(axes)], axes)], "keepdims": rng.randrange(2)})
+    elif t == "gather":
+        x = X(fdt, [n, m])
+        idx = rng.choice([[-1], [0, -1], [[0], [-1]], [n - 1, 0, 0]])
+        arr = np.array(idx)
+        emit({"op": "gather_ax", "args": [x, C(rng.choice(["i64", "i32"]), [int(d) for d in arr.shape], [int(v) for v in arr.reshape(-1)])],
+              "axis": rng.choice([0, -2])})
+    elif t == "resize":
+        x = X("f32", [1, 1, 2, m])
+        if rng.random() < 0.5:
+            emit({"op": "resize", "args": [x, C("i64", [4], [1, 1, rng.choice([1, 3, 4]), rng.choice([2, 5])])], "by": "sizes"})
+        else:
+            emit({"op": "resize", "args": [x, C("f32", [4], [1.0, 1.0, rng.choice([0.5, 1.5, 2.0]), rng.choice([1.0, 2.5])])], "by": "scales"})
+    return steps
